@@ -13,6 +13,7 @@ import (
 
 	"github.com/enbility/spine-go/api"
 	"github.com/enbility/spine-go/model"
+	"github.com/enbility/spine-go/spine"
 	"github.com/enbility/spine-go/util"
 
 	"verifharness/rig"
@@ -49,6 +50,14 @@ import (
 // of its entity and adds it again. What the statement promises for a
 // counter does not depend on what other peers do: every registration still fires exactly once.
 //
+// Other kinds of messages. A notify, read, write or call message may carry a msgCounterReference as well (7% of the
+// steps, mostly the counter of a pending registration of its destination): it is neither a reply nor a result, so
+// nothing fires and nothing is consumed. Replies also reach the server feature S (from the peer's client feature).
+// An ANSWERING peer may announce its entity anew before it answers: the callback must be handed the feature (and
+// entity) object the device holds at that moment (checked inside the callback through the entity tree).
+// Overlapping arrivals (c14Storm, racing cases): both peers deliver matching messages for the same counters at the same
+// time while other counters and result callbacks are being registered. Re-entrant callbacks: part "reentrant" below.
+//
 // "Different function" means a different function literal: the stack compares code pointers, so two
 // closures of ONE literal count as the same function (see the report); the harness therefore keeps four
 // literals and never registers two closures of one literal for one counter on one feature, except as
@@ -70,6 +79,9 @@ func init() {
 			"{own, foreign function} x {wire, direct HandleMessage for the missing reference}; accepted replies carry a full list of 1-3 items or, once the cache of the answering feature holds 2-3 items, every second time a restricted data set (partial list, partial item + selector, delete selector) and the callback must see the data set of that reply; every third acceptable reply for a feature whose cache holds a known full data set REPEATS that data set verbatim (same function, same items; polling unchanged data) for a counter with 1-2 registered callbacks, which must fire exactly once with that data; " +
 			"a third, bystander peer is disconnected/reconnected (or announces the removal of its entity and adds it again) at 8% of the steps (and is disconnected concurrently with every third racing arrival); every third case additionally races registrations against the arrival of a matching message (each followed by a second matching message) and registers 2-6 callbacks for one counter concurrently (different functions and one function value from several goroutines, followed by a matching and a repeated message). " +
 			"A case is non-trivial if at least one callback invocation, one refused duplicate registration (or one concurrent registration duel) and one arrival that must not fire anything were judged; distinct = distinct step-shape sequences (hash; payload values excluded). " +
+			"Other classifiers: 7% of the steps deliver a notify / read / write / call message from peer0 or peer1 to A, B, S or NodeManagement that carries a msgCounterReference (four times out of five that of a pending registration of the destination feature): nothing may be invoked, the registration stays due. Replies also go to the server feature S (one in five; answered by the peer's client feature [1]/3); at 2% of the steps an ANSWERING peer announces the removal of its entity and adds it again (new entity and feature objects): pending registrations stay due and the callback must be handed the feature object the device holds then, with its entity. " +
+			"Racing cases end with a storm of overlapping arrivals: peer0 and peer1 each deliver one matching message (reply or result) for the same 10 fresh counters (2-3 registrations each) at the same time (spinning start line, re-aligned per counter) while a third goroutine registers 2 callbacks each for 10 other counters and 3 goroutines add 4 result callbacks each; every registration exactly once with one of its two messages, earlier result callbacks once per result, concurrently added ones at most once per result; then one matching result per other counter: each registration made meanwhile once, every result callback (the 12 concurrent ones included) once per result. " +
+			"reentrant: case = 1-3 callbacks for counter N on one feature of which 1-2 call back into the stack when invoked (drawn plans: AddResponseCallback for another counter on the own feature with a callback that itself registers a third counter, for the SAME counter, on another feature; AddResultCallback on the own / another feature; every second case a result callback that registers a response callback), then matching messages for N, for the counters registered from inside, N again, and a final sweep; every registration made from inside a callback must be accepted and fire exactly once with the next matching message; a delivery that does not return or a process that does not become quiet is a violation only if goroutine dumps show a standstill (every goroutine of the stack waits for a lock), otherwise inconclusive. Non-trivial if at least one registration was made from inside a callback and one invocation was judged. " +
 			"blocked: case = 1-3 callbacks for counter N on one feature of which 1-2 do not return (they park on a harness gate), registered in a drawn order, plus callbacks for N on another feature and for another counter; a first matching reply/result; then, while the callbacks are parked, a drawn window of 1-7 operations {second message referencing N (result after reply, reply after result, same kind; same or other identically numbered peer), registration of a further function for N, message for another counter/feature with pending callbacks, unregistered reference}, each judged when the process is quiet except for the parked callbacks; the gate is opened at the logical end, then optionally the reference once more and one matching result for every pending registration. Non-trivial if a callback was parked, at least one window operation was judged and at least one invocation was judged.",
 		Assumptions: []string{
 			"acceptance of a reply is predicted as in C01: the function belongs to the type of the source feature and the payload is a plain full list",
@@ -78,6 +90,10 @@ func init() {
 			"'the received data' of a reply is the data set that reply carries (as decoded), also when the reply carries a partial or delete filter: not the content of the cache after the reply was merged into it",
 			"the statement names no disconnects: what it promises for a counter holds whatever other peers do, so the disconnect of a bystander peer (one that was sent no request) must not cancel any registration",
 			"for a racing registration both 'invoked by the racing message' and 'left pending, invoked by the follow-up message' are accepted; never twice, never not at all",
+			"a notify, read, write or call message is neither 'an accepted reply' nor 'a result', whatever msgCounterReference its header carries: it invokes nothing and consumes nothing",
+			"a reply that arrives at a local SERVER feature (S) from the peer's client feature of the same type is accepted like any other (the function belongs to the type of the source feature): the statement speaks of 'a local feature', not of a role. NodeManagement is sent results only",
+			"overlapping arrivals: when two matching messages for one counter are processed at the same time either may serve a registration (all registrations of the counter need not be served by the same one); a result callback added while a result message is being dispatched may or may not be invoked for that message (at most once) and must be invoked for every later one",
+			"reentrant part: a registration made from inside a callback for the counter whose message is being served is a new registration (the earlier one was consumed by the arrival that invoked the callback): due with the NEXT matching message, never with the current one",
 			"quiescence = goroutine count back at the idle baseline (callbacks run on goroutines spawned by the stack); watchdog expiry is inconclusive",
 			"blocked part: what the statement promises does not depend on callbacks returning. While a callback invoked for counter N is parked (it returns only when the harness opens its gate at the logical end of the window): a further message referencing N must not invoke it or its siblings again (the registration was consumed by the first arrival); a function registered for N in that window is a new registration - it must not be refused (different function), is never invoked with the message that arrived before it was registered and is invoked exactly once with the next message referencing N; callbacks due with ANOTHER message (another counter, another feature, or a later message for N that serves a registration made during the window) are due when that message arrives and must have been invoked once the process is quiet (goroutine count = baseline + parked callbacks) or at a standstill (a goroutine dump shows every goroutine of the stack waiting for a lock and the rest parked in the gate, three times in a row: nothing can happen before the gate is opened): they must not wait for the parked callback to return",
 			"blocked part, not judged: WHEN the siblings of a parked callback (the other callbacks of the same message) are invoked - an implementation may invoke the callbacks of one message one after the other; they are owed and must have been invoked exactly once when the gate has been opened and the process is quiet. Registering the parked callback's own function value again during the window is not generated (the statement does not say whether a consumed registration still counts for 'twice'). If the delivery itself does not return while a callback is parked the case is inconclusive (the statement does not demand asynchronous invocation)",
@@ -86,6 +102,7 @@ func init() {
 			{Name: "histories", Cases: pick(300, 6000), Run: c14Case, Procs: 8},
 			{Name: "histories-race", Race: true, Cases: pick(45, 500), Run: func(c *rig.Ctx) { c14Run(c, true) }, Quiet: 120 * time.Second, Procs: 8},
 			{Name: "blocked", Cases: pick(120, 1500), Run: c14BlockedCase, Quiet: 120 * time.Second, Procs: 8},
+			{Name: "reentrant", Cases: pick(90, 1200), Run: c14ReentrantCase, Quiet: 120 * time.Second, Procs: 8},
 		},
 	})
 }
@@ -129,6 +146,30 @@ func (l *c14Log) rec(reg, fn int, m api.ResponseMessage) {
 	}
 	if m.FeatureLocal != nil {
 		local = m.FeatureLocal.Address().String()
+	}
+	// "the originating remote feature": the feature object the device holds at that address NOW (an answering peer may
+	// have announced its entity anew before it answered), together with its entity
+	if m.FeatureRemote != nil && m.FeatureRemote.Device() != nil {
+		// looked up through the entity tree, not through the accessor the stack itself uses to resolve a source address
+		var cur api.FeatureRemoteInterface
+		var curEnt api.EntityRemoteInterface
+		if fa := m.FeatureRemote.Address(); fa != nil {
+			if curEnt = m.FeatureRemote.Device().Entity(fa.Entity); curEnt != nil {
+				cur = curEnt.FeatureOfAddress(fa.Feature)
+			}
+		}
+		if cur != m.FeatureRemote {
+			from += "(FeatureRemote is NOT the feature object the device holds at this address)"
+		}
+		if m.EntityRemote != nil && curEnt != nil && m.EntityRemote != curEnt {
+			from += "(EntityRemote is NOT the entity object the device holds at this address)"
+		}
+		switch {
+		case m.EntityRemote == nil:
+			from += "(EntityRemote=nil)"
+		case m.EntityRemote != m.FeatureRemote.Entity():
+			from += "(EntityRemote=" + m.EntityRemote.Address().String() + " is NOT the entity of FeatureRemote)"
+		}
 	}
 	s := fmt.Sprintf("ref=%d local=%s from=%s data=%s", m.MsgCounterReference, local, from, rig.JS(m.Data))
 	l.mu.Lock()
@@ -180,6 +221,7 @@ type c14World struct {
 	byUp     bool
 	byDrops  int
 	partials int
+	optional map[string]int // see settle
 }
 
 func c14PeerFeats() []rig.FS {
@@ -357,6 +399,112 @@ func (cw *c14World) registerResult(feat int) {
 	cw.feats[feat].AddResultCallback(c14FR(cw.log, id))
 	cw.results[feat] = append(cw.results[feat], id)
 	cw.logf("register result callback #%d on %s", id, cw.names[feat])
+}
+
+// reannounce: the ANSWERING peer pi announces the removal of its entity [1] and adds it again (at a quiet point). The
+// device then holds new entity and feature objects (with empty caches) at the same addresses; registrations are keyed by
+// local feature and counter, so every pending registration stays due, and a later answer of this peer must be handed
+// over with the feature object the device holds then.
+func (cw *c14World) reannounce(pi int) {
+	p := cw.w.Peers[pi]
+	before := p.RD.FeatureByAddress(rig.FA(p.Addr, []uint{1}, 1))
+	p.NotifyDiscovery(true, p.Discovery(nil, nil, [][]uint{{1}}))
+	gone := p.RD.Entity(rig.EA("", []uint{1}).Entity) == nil
+	p.NotifyDiscovery(true, p.Discovery(c14PeerFeats()[1:], map[string]model.NetworkManagementStateChangeType{"[1]": model.NetworkManagementStateChangeTypeAdded}, nil))
+	p.Tap.Take()
+	after := p.RD.FeatureByAddress(rig.FA(p.Addr, []uint{1}, 1))
+	n := 0
+	for f := range cw.pending {
+		for _, rgs := range cw.pending[f] {
+			n += len(rgs)
+		}
+	}
+	for k := range cw.cached {
+		if strings.HasPrefix(k, fmt.Sprintf("%d/", pi)) {
+			delete(cw.cached, k)
+		}
+	}
+	for k := range cw.lastFull {
+		if strings.HasPrefix(k, fmt.Sprintf("%d/", pi)) {
+			delete(cw.lastFull, k)
+		}
+	}
+	cw.c.Events(1)
+	if gone && after != nil && after != before {
+		cw.c.Count("answering-peer-announced-its-entity-anew(new-feature-objects)", 1)
+		if n > 0 {
+			cw.c.Count("answering-peer-announced-its-entity-anew-with-pending-callbacks", 1)
+		}
+	}
+	cw.logf("answering peer%d announced the removal of its entity [1] (removed=%v) and added it again (new feature objects=%v, %d registrations pending)", pi, gone, after != nil && after != before, n)
+	cw.baseline = c14Settle()
+}
+
+// otherClassifier delivers a notify / read / write / call message that carries a msgCounterReference - mostly that
+// of a pending registration of the destination feature. The statement names "an accepted reply or a result referencing
+// that counter": no other kind of message fires (or consumes) anything, whatever its header references; the
+// registration stays due with the next matching reply or result (the model keeps it pending, so the later arrivals
+// and the final sweep of the case demand it).
+func (cw *c14World) otherClassifier(ctrs []model.MsgCounterType) bool {
+	r := cw.c.Rand
+	type slot struct {
+		f  int
+		ct model.MsgCounterType
+	}
+	var pend []slot
+	for f := range cw.feats {
+		for _, ct := range ctrs {
+			if len(cw.pending[f][ct]) > 0 {
+				pend = append(pend, slot{f, ct})
+			}
+		}
+	}
+	f, ct, refKind := r.Intn(4), ctrs[r.Intn(len(ctrs))], "any"
+	if len(pend) > 0 && r.Intn(5) > 0 {
+		sl := pend[r.Intn(len(pend))]
+		f, ct, refKind = sl.f, sl.ct, "pending"
+	} else if len(cw.pending[f][ct]) > 0 {
+		refKind = "pending"
+	}
+	cl := []model.CmdClassifierType{model.CmdClassifierTypeNotify, model.CmdClassifierTypeNotify, model.CmdClassifierTypeRead, model.CmdClassifierTypeWrite, model.CmdClassifierTypeCall}[r.Intn(5)]
+	pi := r.Intn(2)
+	p := cw.w.Peers[pi]
+	src := p.NM()
+	if f < 3 {
+		src = rig.FA(p.Addr, []uint{1}, uint(f+1))
+	}
+	cw.nArr++
+	n := 1000*cw.nArr + r.Intn(1000)
+	var cmd model.CmdType
+	switch {
+	case f == 3 && cl == model.CmdClassifierTypeCall:
+		cmd = model.CmdType{NodeManagementSubscriptionRequestCall: &model.NodeManagementSubscriptionRequestCallType{SubscriptionRequest: &model.SubscriptionManagementRequestCallType{
+			ClientAddress: rig.FA(p.Addr, []uint{1}, 3), ServerAddress: cw.feats[2].Address(), ServerFeatureType: util.Ptr(model.FeatureTypeTypeMeasurement)}}}
+	case f == 3:
+		cmd = model.CmdType{NodeManagementUseCaseData: &model.NodeManagementUseCaseDataType{}}
+	case cl == model.CmdClassifierTypeRead || (f == 2 && cl == model.CmdClassifierTypeWrite):
+		cmd = model.CmdType{MeasurementListData: &model.MeasurementListDataType{}}
+		if f == 1 {
+			cmd = model.CmdType{ElectricalConnectionDescriptionListData: &model.ElectricalConnectionDescriptionListDataType{}}
+		}
+	case f == 1:
+		// a function of the source feature's type that no reply of this check carries: the caches the replies work on stay as they are
+		cmd = model.CmdType{ElectricalConnectionParameterDescriptionListData: &model.ElectricalConnectionParameterDescriptionListDataType{
+			ElectricalConnectionParameterDescriptionData: []model.ElectricalConnectionParameterDescriptionDataType{{ElectricalConnectionId: util.Ptr(model.ElectricalConnectionIdType(1)), ParameterId: util.Ptr(model.ElectricalConnectionParameterIdType(n % 50))}}}}
+	default:
+		cmd = model.CmdType{MeasurementDescriptionListData: &model.MeasurementDescriptionListDataType{
+			MeasurementDescriptionData: []model.MeasurementDescriptionDataType{{MeasurementId: util.Ptr(model.MeasurementIdType(1)), Label: util.Ptr(model.LabelType(fmt.Sprintf("n%d", n)))}}}}
+	}
+	ack := r.Intn(3) == 0
+	cw.shape = append(cw.shape, fmt.Sprintf("oc-%s%d%s%v", cl, f, refKind[:3], ack))
+	cw.c.Seen("other_classifier_classes", fmt.Sprintf("%s/to=%s/reference=%s", cl, cw.names[f], refKind))
+	cw.logf("arrival of a %s from peer%d %s to %s carrying msgCounterReference %d (%s; pending there: %s) -> nothing is due", cl, pi, src, cw.names[f], ct, refKind, cw.pendingStr(f, ct))
+	p.Send(cl, src, cw.feats[f].Address(), ack, util.Ptr(ct), cmd)
+	p.Tap.Take()
+	if refKind == "pending" {
+		cw.c.Count("other-classifier-messages-referencing-a-pending-registration", 1)
+	}
+	return cw.settle(fmt.Sprintf("after a %s to %s carrying msgCounterReference %d (%s)", cl, cw.names[f], ct, refKind), "arrival-"+string(cl)+"-with-reference", nil)
 }
 
 type c14Arrival struct {
@@ -555,6 +703,14 @@ func (cw *c14World) due(a c14Arrival) (want []c14Inv) {
 	return want
 }
 
+// whatOf renders what a callback invoked with a must log (the reference written from the statement: the reference
+// counter, the local feature, the originating remote feature and the data set the message carries).
+func (cw *c14World) whatOf(a c14Arrival) string {
+	_, data, _ := cw.cmdOf(a)
+	p := cw.w.Peers[a.peer]
+	return fmt.Sprintf("ref=%d local=%s from=%s/%s data=%s", *a.ref, cw.feats[a.feat].Address().String(), p.Ski, cw.srcAddr(a).String(), rig.JS(data))
+}
+
 func (cw *c14World) inject(a c14Arrival) {
 	cw.inject0(a)
 	cw.noteInjected(a)
@@ -661,6 +817,21 @@ func (cw *c14World) settle(where, class string, want []c14Inv) bool {
 	}
 	got := cw.log.take()
 	cw.c.Events(int64(len(got)) + 1)
+	if len(cw.optional) > 0 {
+		// invocations the statement leaves open (a result callback registered while the result message that is being
+		// delivered is dispatched): at most once each
+		var rest []c14Inv
+		for _, x := range got {
+			k := fmt.Sprintf("#%d %s", x.reg, x.what)
+			if cw.optional[k] > 0 {
+				cw.optional[k]--
+				cw.c.Count("reentrant:result-callback-registered-during-the-dispatch-of-a-result-invoked-with-that-result(allowed)", 1)
+				continue
+			}
+			rest = append(rest, x)
+		}
+		got = rest
+	}
 	g, w := c14Multiset(got), c14Multiset(want)
 	if strings.Join(g, "\n") == strings.Join(w, "\n") {
 		cw.c.Count("invocations-judged", int64(len(got)))
@@ -755,7 +926,9 @@ func c14Run(c *rig.Ctx, racing bool) {
 	}
 	pickFeat := func(forReply bool) int {
 		if forReply {
-			return r.Intn(2)
+			// replies go to the client features A and B and (one in five) to the server feature S, answered by the peer's
+			// client feature [1]/3: "a local feature", whatever its role
+			return []int{0, 0, 1, 1, 2}[r.Intn(5)]
 		}
 		return []int{0, 0, 1, 1, 2, 3}[r.Intn(6)]
 	}
@@ -809,9 +982,21 @@ func c14Run(c *rig.Ctx, racing bool) {
 			cw.shape = append(cw.shape, fmt.Sprintf("rreg%d", f))
 			cw.registerResult(f)
 		case x < 50:
-			op := []string{"toggle", "toggle", "flap", "flap", "entity"}[r.Intn(5)]
+			op := []string{"toggle", "toggle", "flap", "flap", "entity", "answerer", "answerer"}[r.Intn(7)]
+			if op == "answerer" {
+				// an ANSWERING peer announces its entity anew; what it answers afterwards comes from the new feature objects
+				pi := r.Intn(2)
+				cw.shape = append(cw.shape, "reannounce")
+				cw.reannounce(pi)
+				continue
+			}
 			cw.shape = append(cw.shape, fmt.Sprintf("by-%s-%v", op, cw.byUp))
 			cw.bystander(op)
+		case x < 57:
+			if !cw.otherClassifier(ctrs) {
+				return
+			}
+			nothing++
 		default:
 			cw.nArr++
 			a := c14Arrival{peer: r.Intn(2), kind: "reply", n: 1000*cw.nArr + r.Intn(1000), errNo: r.Intn(3)}
@@ -931,6 +1116,13 @@ func c14Run(c *rig.Ctx, racing bool) {
 	// racing cases: a burst of registration duels on fresh counters
 	if racing && !c.Failed() {
 		if !c14Burst(cw, []int{0, 0, 1, 2, 3}[r.Intn(5)]) {
+			return
+		}
+	}
+	// racing cases: overlapping arrivals from both peers, concurrent with registrations for other counters and with
+	// result-callback registrations
+	if racing && !c.Failed() {
+		if !c14Storm(cw, []int{0, 0, 1, 2, 2, 3}[r.Intn(6)]) {
 			return
 		}
 	}
@@ -1304,7 +1496,7 @@ func c14Duel(cw *c14World, f int, ctr model.MsgCounterType) bool {
 		case 2:
 			a.srcFeat = 3
 		}
-		if f < 2 && r.Intn(2) == 0 {
+		if f < 3 && r.Intn(2) == 0 {
 			a.kind = "reply"
 		} else {
 			cw.shapeResult(&a)
@@ -1438,6 +1630,275 @@ func c14Burst(cw *c14World, f int) bool {
 	}
 	cw.logf("BURST settled by one matching result per counter -> %d invocations due", len(want))
 	return cw.settle("after one matching result for each of the concurrently registered counters", "duel", want)
+}
+
+// c14Storm: arrivals that OVERLAP each other. Ten fresh counters Y0..Y9 of one feature carry 2-3 registrations each.
+// Two goroutines - the readers of the connections of peer0 and peer1, which are independent of each other in a real
+// process - each deliver one matching message per counter (reply or result, drawn), walking the counters in the same
+// order behind a spinning start line and re-aligning before every counter (pacing only), so that the two messages for
+// one counter are processed at the same time. Concurrently a third goroutine registers two callbacks each for ten OTHER
+// counters X0..X9 of the same feature, and three goroutines register four result callbacks each on it.
+// From the statement: every registration for a Y counter is invoked exactly once, with one of the two messages that
+// reference its counter; a result callback registered before is invoked once per result message; a registration for an
+// X counter is not invoked by any Y message and is not lost; a result callback registered during the storm is invoked at
+// most once per result message of the storm and, registered by then, exactly once by every later result. Afterwards
+// one matching result per X counter arrives: each X registration fires exactly once, and every result callback -
+// including the twelve registered concurrently - once per result.
+func c14Storm(cw *c14World, f int) bool {
+	c, r := cw.c, cw.c.Rand
+	const M = 10
+	baseY, baseX := model.MsgCounterType(60), model.MsgCounterType(80)
+	srcFeat := []uint{1, 2, 3, 0}[f]
+	for i := 0; i < M; i++ {
+		fn0 := r.Intn(len(c14Fns))
+		for k, n := 0, 2+r.Intn(2); k < n; k++ {
+			cw.register(f, baseY+model.MsgCounterType(i), (fn0+k)%len(c14Fns))
+		}
+	}
+	if c.Failed() {
+		return false
+	}
+	var arr [2][]c14Arrival
+	var whats [2][]string
+	for pi := 0; pi < 2; pi++ {
+		for i := 0; i < M; i++ {
+			cw.nArr++
+			a := c14Arrival{peer: pi, kind: "result", feat: f, srcFeat: srcFeat, ref: util.Ptr(baseY + model.MsgCounterType(i)), n: 1000*cw.nArr + r.Intn(1000)}
+			if f < 3 && r.Intn(2) == 0 {
+				a.kind, a.k = "reply", 1+r.Intn(3)
+			} else {
+				cw.shapeResult(&a)
+			}
+			arr[pi] = append(arr[pi], a)
+			whats[pi] = append(whats[pi], cw.whatOf(a))
+		}
+	}
+	// registrations made concurrently: response callbacks for the X counters, result callbacks
+	xregs := make([][2]*c14Reg, M)
+	xerrs := make([][2]error, M)
+	for i := range xregs {
+		fn0 := r.Intn(len(c14Fns))
+		for k := 0; k < 2; k++ {
+			cw.nextReg++
+			rg := &c14Reg{id: cw.nextReg, feat: f, fn: (fn0 + k) % len(c14Fns), ctr: baseX + model.MsgCounterType(i), racing: true}
+			rg.f = c14Fns[rg.fn](cw.log, rg.id)
+			xregs[i][k] = rg
+		}
+	}
+	const RG, RK = 3, 4
+	var newRes [RG][RK]int
+	var newResF [RG][RK]func(api.ResponseMessage)
+	isNewRes := map[int]bool{}
+	for g := 0; g < RG; g++ {
+		for k := 0; k < RK; k++ {
+			cw.nextReg++
+			newRes[g][k] = cw.nextReg
+			newResF[g][k] = c14FR(cw.log, cw.nextReg)
+			isNewRes[cw.nextReg] = true
+		}
+	}
+	oldRes := append([]int(nil), cw.results[f]...)
+	cw.shape = append(cw.shape, fmt.Sprintf("STORM%d", f))
+	cw.logf("STORM on %s: peer0 and peer1 each deliver one matching message for the counters %d..%d at the same time (registrations pending: 2-3 per counter); concurrently 2 callbacks each are registered for the counters %d..%d and %d result callbacks from %d goroutines", cw.names[f], baseY, int(baseY)+M-1, baseX, int(baseX)+M-1, RG*RK, RG)
+	var ready atomic.Int32
+	var start atomic.Bool
+	var prog [2]atomic.Int32
+	var wg sync.WaitGroup
+	line := func() {
+		ready.Add(1)
+		for i := 0; !start.Load(); i++ {
+			if i > 1<<14 {
+				runtime.Gosched()
+			}
+		}
+	}
+	for pi := 0; pi < 2; pi++ {
+		pi := pi
+		wg.Add(1)
+		go func() {
+			defer wg.Done()
+			line()
+			for i := 0; i < M; i++ {
+				prog[pi].Store(int32(i))
+				for spin := 0; int(prog[1-pi].Load()) < i && spin < 1<<15; spin++ { // pacing only: both readers reach counter i together
+				}
+				cw.inject0(arr[pi][i])
+			}
+			prog[pi].Store(M)
+		}()
+	}
+	wg.Add(1)
+	go func() {
+		defer wg.Done()
+		line()
+		for i := 0; i < M; i++ {
+			for spin := 0; int(prog[0].Load()) < i && spin < 1<<15; spin++ { // pacing only: spread over the whole storm
+			}
+			for k := 0; k < 2; k++ {
+				xerrs[i][k] = cw.feats[f].AddResponseCallback(baseX+model.MsgCounterType(i), xregs[i][k].f)
+			}
+		}
+	}()
+	for g := 0; g < RG; g++ {
+		g := g
+		wg.Add(1)
+		go func() {
+			defer wg.Done()
+			line()
+			for k := 0; k < RK; k++ {
+				if g > 0 { // two of the three goroutines spread their calls over the storm (pacing only): registrations race results
+					for spin := 0; int(prog[g-1].Load()) < (g+1)*k && spin < 1<<15; spin++ {
+					}
+				}
+				cw.feats[f].AddResultCallback(newResF[g][k])
+			}
+		}()
+	}
+	for i := 0; int(ready.Load()) < 3+RG && i < 1<<20; i++ {
+		runtime.Gosched()
+	}
+	start.Store(true)
+	done := make(chan struct{})
+	go func() { wg.Wait(); close(done) }()
+	select {
+	case <-done:
+	case <-time.After(30 * time.Second):
+		c.Inconclusive("overlapping arrivals / concurrent registrations did not return within 30s")
+		return false
+	}
+	if !rig.WaitQuiet(cw.baseline, 20*time.Second) {
+		c.Inconclusive("process not quiet after the overlapping arrivals")
+		return false
+	}
+	got := cw.log.take()
+	c.Events(int64(len(got)) + 2*M + 2*M + RG*RK)
+	// the reference
+	yIdx := map[int]int{} // registration -> counter index
+	for i := 0; i < M; i++ {
+		ct := baseY + model.MsgCounterType(i)
+		for _, rg := range cw.pending[f][ct] {
+			yIdx[rg.id] = i
+		}
+		cw.consumed[f][ct] = true
+		delete(cw.pending[f], ct)
+	}
+	resultWhat := map[string]bool{}
+	for pi := 0; pi < 2; pi++ {
+		for i, a := range arr[pi] {
+			if a.kind == "result" {
+				resultWhat[whats[pi][i]] = true
+			}
+			cw.noteInjected(a)
+		}
+	}
+	isOldRes := map[int]bool{}
+	for _, id := range oldRes {
+		isOldRes[id] = true
+	}
+	isX := map[int]bool{}
+	for i := range xregs {
+		for k := 0; k < 2; k++ {
+			isX[xregs[i][k].id] = true
+		}
+	}
+	nY := map[int]int{}
+	nRes := map[string]int{} // "#id what" of result callbacks
+	detail := func() string {
+		return fmt.Sprintf("messages of peer0:\n  %s\nmessages of peer1:\n  %s\nobserved invocations (%d):\n  %s", strings.Join(whats[0], "\n  "), strings.Join(whats[1], "\n  "), len(got), strings.Join(c14Multiset(got), "\n  "))
+	}
+	for _, x := range got {
+		switch i, isY := yIdx[x.reg]; {
+		case isY:
+			nY[x.reg]++
+			if x.what != whats[0][i] && x.what != whats[1][i] {
+				cw.viol("overlap/wrong-message-or-feature", "registration #%d for counter %d on %s was invoked with %q; the two messages referencing its counter are\n  %s\n  %s", x.reg, int(baseY)+i, cw.names[f], x.what, whats[0][i], whats[1][i])
+				return false
+			}
+		case isOldRes[x.reg] || isNewRes[x.reg]:
+			if !resultWhat[x.what] {
+				cw.viol("overlap/result-callback-invoked-without-a-result", "result callback #%d was invoked with %q, which is none of the result messages delivered\n%s", x.reg, x.what, detail())
+				return false
+			}
+			nRes[fmt.Sprintf("#%d %s", x.reg, x.what)]++
+		case isX[x.reg]:
+			cw.viol("overlap/callback-not-due-invoked", "registration #%d for a counter %d..%d nobody has referenced yet was invoked with %q\n%s", x.reg, baseX, int(baseX)+M-1, x.what, detail())
+			return false
+		default:
+			cw.viol("overlap/callback-not-due-invoked", "registration #%d is not concerned by any of the messages and was invoked with %q\n%s", x.reg, x.what, detail())
+			return false
+		}
+	}
+	for id, i := range yIdx {
+		switch n := nY[id]; {
+		case n == 0:
+			cw.viol("overlap/due-callback-not-invoked", "registration #%d for counter %d on %s: two matching messages (one per peer) arrived at the same time, it was never invoked\n%s", id, int(baseY)+i, cw.names[f], detail())
+			return false
+		case n > 1:
+			cw.viol("overlap/callback-invoked-more-than-once", "registration #%d for counter %d on %s was invoked %d times: once by each of the two matching messages that arrived at the same time\n%s", id, int(baseY)+i, cw.names[f], n, detail())
+			return false
+		}
+	}
+	for w := range resultWhat {
+		for _, id := range oldRes {
+			switch n := nRes[fmt.Sprintf("#%d %s", id, w)]; {
+			case n == 0:
+				cw.viol("overlap/result-callback-not-invoked-for-a-result", "result callback #%d (registered before) was not invoked for the result %q\n%s", id, w, detail())
+				return false
+			case n > 1:
+				cw.viol("overlap/result-callback-invoked-more-than-once-for-one-result", "result callback #%d was invoked %d times for the result %q\n%s", id, n, w, detail())
+				return false
+			}
+		}
+	}
+	for k, n := range nRes {
+		if n > 1 {
+			cw.viol("overlap/result-callback-invoked-more-than-once-for-one-result", "%s: %d invocations\n%s", k, n, detail())
+			return false
+		}
+	}
+	for i := range xregs {
+		for k := 0; k < 2; k++ {
+			if xerrs[i][k] != nil {
+				cw.viol("overlap/different-callback-refused", "registration of F%d for counter %d on %s, made while messages for other counters arrived, was refused: %v", xregs[i][k].fn, xregs[i][k].ctr, cw.names[f], xerrs[i][k])
+				return false
+			}
+			cw.pending[f][xregs[i][k].ctr] = append(cw.pending[f][xregs[i][k].ctr], xregs[i][k])
+		}
+	}
+	for g := 0; g < RG; g++ {
+		for k := 0; k < RK; k++ {
+			cw.results[f] = append(cw.results[f], newRes[g][k])
+		}
+	}
+	c.Count("invocations-judged", int64(len(got)))
+	c.Count("overlap:storms", 1)
+	c.Count("overlap:counters-with-two-matching-messages-at-the-same-time", M)
+	c.Count("overlap:registrations-made-while-messages-for-other-counters-arrive", 2*M)
+	c.Count("overlap:result-callbacks-registered-concurrently", RG*RK)
+	both := 0
+	for i := 0; i < M; i++ {
+		seen := map[string]bool{}
+		for _, x := range got {
+			if j, ok := yIdx[x.reg]; ok && j == i {
+				seen[x.what] = true
+			}
+		}
+		if len(seen) > 1 {
+			both++
+		}
+	}
+	c.Count("overlap:counters-whose-registrations-were-served-by-both-messages", int64(both))
+	// one matching result per X counter: nothing registered concurrently was lost
+	var want []c14Inv
+	for i := 0; i < M; i++ {
+		cw.nArr++
+		a := c14Arrival{peer: r.Intn(2), kind: "result", feat: f, srcFeat: srcFeat, ref: util.Ptr(baseX + model.MsgCounterType(i)), n: 1000*cw.nArr + r.Intn(1000)}
+		cw.shapeResult(&a)
+		want = append(want, cw.due(a)...)
+		cw.inject(a)
+	}
+	cw.logf("STORM follow-up: one matching result per counter %d..%d -> %d invocations due (each concurrently registered callback once, each of the %d result callbacks once per result)", baseX, int(baseX)+M-1, len(want), len(cw.results[f]))
+	return cw.settle("after one matching result for each counter registered while other messages arrived (and for every result callback registered concurrently)", "overlap-follow-up", want)
 }
 
 // ---------------------------------------------------------------------------
@@ -1658,11 +2119,11 @@ func c14BlockedCase(c *rig.Ctx) {
 	ctrs := []model.MsgCounterType{7, 8, 9, 10}
 	r.Shuffle(len(ctrs), func(i, j int) { ctrs[i], ctrs[j] = ctrs[j], ctrs[i] })
 	N, M := ctrs[0], ctrs[1]
-	f := []int{0, 0, 0, 1, 1, 1, 2, 3}[r.Intn(8)] // replies reach A and B only
+	f := []int{0, 0, 0, 1, 1, 1, 2, 2, 3}[r.Intn(9)] // replies reach A, B and the server feature S; NodeManagement gets results
 	srcOf := func(feat int) uint { return []uint{1, 2, 3, 0}[feat] }
 	mk := func(kind string, feat int, ref model.MsgCounterType, peer int) c14Arrival {
 		cw.nArr++
-		if feat >= 2 {
+		if feat >= 3 {
 			kind = "result"
 		}
 		a := c14Arrival{peer: peer, kind: kind, feat: feat, srcFeat: srcOf(feat), ref: util.Ptr(ref), n: 1000*cw.nArr + r.Intn(1000), errNo: r.Intn(3)}
@@ -1774,7 +2235,7 @@ func c14BlockedCase(c *rig.Ctx) {
 		switch op {
 		case "again":
 			kind := kindOf()
-			if r.Intn(2) == 0 && f < 2 { // a result following a reply, a reply following a result
+			if r.Intn(2) == 0 && f < 3 { // a result following a reply, a reply following a result
 				kind = map[string]string{"reply": "result", "result": "reply"}[lastKind]
 			}
 			peer := a1.peer
@@ -1892,6 +2353,388 @@ func c14BlockedCase(c *rig.Ctx) {
 				return
 			}
 			fired += int64(len(want))
+		}
+	}
+}
+
+// ---------------------------------------------------------------------------
+// part reentrant: callbacks that call back into the stack
+//
+// The usual way to use response callbacks is a chain: the callback for the answer to request 1 sends request 2 and
+// registers the callback for ITS answer - from inside the callback, on the same local feature; or it adds a result
+// callback. The statement does not make anything depend on WHERE a registration is made, so a registration made from
+// inside a callback is a registration like any other: it must not be refused (different function / other counter), it
+// is invoked exactly once with the next accepted reply or result referencing its counter at its feature, a result
+// callback added there is invoked once for every LATER result (for the result that is being dispatched while it is
+// added either is accepted) - and above all the stack must still be alive afterwards.
+//
+// One case: 1-3 callbacks for counter N on feature f, 1-2 of them re-entrant: on their (first) invocation they carry
+// out 1-4 drawn plans {register a follow-up for N2 on f (itself re-entrant: it registers a callback for N3 - a chain of
+// depth 2), register another function for the SAME counter N on f, register for N2 on another feature g, add a result
+// callback on f, add a result callback on g}; in every second case a re-entrant RESULT callback on f registers a
+// response callback for a fourth counter on its first invocation. Then: a matching message for N, and in a drawn order
+// matching messages for (f,N2), (g,N2), (f,N) again, (f,N3); finally every pending registration is settled by matching
+// results (repeated while the sweep itself creates registrations). Every delivery is followed by quiescence, the
+// invocations are compared with the reference as in the other parts, and the registrations the callbacks made in the
+// meantime enter the reference at that quiet point.
+//
+// Liveness: every delivery runs on a helper goroutine under a watchdog (expiry = inconclusive). If the delivery does
+// not return or the process does not become quiet, goroutine dumps decide (eAllLockWaiting / eQuietOrStuck): when
+// every goroutine with a frame of the stack waits for a lock on three dumps in a row nothing can ever happen again -
+// the callback's call into the stack and the delivery wait for each other. That standstill is the violation
+// (signature reentrant/standstill...): the registrations the callback was about to make, and every later message for
+// that feature, can never be served.
+
+type c14RePlan struct {
+	kind  string // "response" | "result"
+	feat  int
+	ctr   model.MsgCounterType
+	rg    *c14Reg
+	resID int
+	resF  func(api.ResponseMessage)
+	name  string
+	ran   atomic.Bool
+	done  atomic.Bool
+	err   error
+	seen  bool // entered the reference
+}
+
+type c14Re struct {
+	cw     *c14World
+	plans  []*c14RePlan
+	wedged bool
+	made   int64
+}
+
+func (re *c14Re) run(plans []*c14RePlan) {
+	for _, pl := range plans {
+		if !pl.ran.CompareAndSwap(false, true) {
+			continue
+		}
+		switch pl.kind {
+		case "response":
+			pl.err = re.cw.feats[pl.feat].AddResponseCallback(pl.ctr, pl.rg.f)
+		default:
+			re.cw.feats[pl.feat].AddResultCallback(pl.resF)
+		}
+		pl.done.Store(true)
+	}
+}
+
+// three different function literals for re-entrant response callbacks, one for the re-entrant result callback
+func c14RE0(re *c14Re, reg int, plans []*c14RePlan) func(api.ResponseMessage) {
+	return func(m api.ResponseMessage) { re.cw.log.rec(reg, 20, m); re.run(plans) }
+}
+func c14RE1(re *c14Re, reg int, plans []*c14RePlan) func(api.ResponseMessage) {
+	return func(m api.ResponseMessage) { re.cw.log.rec(reg, 21, m); re.run(plans) }
+}
+func c14RE2(re *c14Re, reg int, plans []*c14RePlan) func(api.ResponseMessage) {
+	return func(m api.ResponseMessage) { re.cw.log.rec(reg, 22, m); re.run(plans) }
+}
+func c14RER(re *c14Re, reg int, plans []*c14RePlan) func(api.ResponseMessage) {
+	return func(m api.ResponseMessage) { re.cw.log.rec(reg, 29, m); re.run(plans) }
+}
+
+// account moves the registrations the callbacks have made since the last quiet point into the reference.
+func (re *c14Re) account() {
+	cw := re.cw
+	for _, pl := range re.plans {
+		if pl.seen || !pl.done.Load() {
+			continue
+		}
+		pl.seen = true
+		re.made++
+		cw.c.Events(1)
+		cw.c.Count("reentrant:registrations-made-from-inside-a-callback:"+pl.name, 1)
+		if pl.kind == "response" {
+			if pl.err != nil {
+				cw.viol("reentrant/registration-from-inside-a-callback-refused", "AddResponseCallback(%d) on %s called from inside a callback (%s) was refused: %v; pending there: %s", pl.ctr, cw.names[pl.feat], pl.name, pl.err, cw.pendingStr(pl.feat, pl.ctr))
+				continue
+			}
+			cw.pending[pl.feat][pl.ctr] = append(cw.pending[pl.feat][pl.ctr], pl.rg)
+			cw.logf("  (a callback registered #%d for counter %d on %s: %s)", pl.rg.id, pl.ctr, cw.names[pl.feat], pl.name)
+		} else {
+			cw.results[pl.feat] = append(cw.results[pl.feat], pl.resID)
+			cw.logf("  (a callback added result callback #%d on %s: %s)", pl.resID, cw.names[pl.feat], pl.name)
+		}
+	}
+}
+
+func (re *c14Re) standstill(where, d string) {
+	re.wedged = true
+	re.cw.viol("reentrant/standstill-after-a-callback-called-back-into-the-stack", "%s: nothing in the process can make progress any more - %s\n(callbacks of this case register a follow-up callback / a result callback on their own local feature from inside their invocation)", where, d)
+}
+
+// deliver injects a on a helper goroutine. false: the delivery did not return (standstill = violation, watchdog = inconclusive).
+func (re *c14Re) deliver(a c14Arrival) bool {
+	cw := re.cw
+	done := make(chan struct{})
+	go func() { defer close(done); cw.inject(a) }()
+	t0 := time.Now()
+	stuck := 0
+	for {
+		select {
+		case <-done:
+			return true
+		case <-time.After(time.Millisecond):
+		}
+		el := time.Since(t0)
+		if el > 60*time.Millisecond { // grace: dumps stop the world
+			if ok, d := eAllLockWaiting(); ok {
+				stuck++
+				if stuck >= 3 {
+					re.standstill("the delivery of "+a.String()+" does not return", d)
+					return false
+				}
+			} else {
+				stuck = 0
+			}
+			time.Sleep(2 * time.Millisecond)
+		}
+		if el > 20*time.Second {
+			re.wedged = true
+			cw.c.Inconclusive("the delivery of %s did not return within 20s (no standstill visible in the goroutine dumps)", a)
+			return false
+		}
+	}
+}
+
+// step delivers a, awaits quiescence (or a standstill), judges the invocations and accounts for what the callbacks did.
+func (re *c14Re) step(a c14Arrival, class string) bool {
+	cw := re.cw
+	cw.optional = map[string]int{}
+	if a.kind == "result" {
+		for _, pl := range re.plans {
+			if pl.kind == "result" && pl.feat == a.feat && !pl.seen {
+				cw.optional[fmt.Sprintf("#%d %s", pl.resID, cw.whatOf(a))] = 1
+			}
+		}
+	}
+	want := cw.due(a)
+	cw.logf("%s: %s -> %d invocations due", class, a, len(want))
+	if !re.deliver(a) {
+		return false
+	}
+	state, d := eQuietOrStuck(cw.baseline, func() int { return 0 }, 20*time.Second)
+	switch state {
+	case "":
+		re.wedged = true
+		cw.c.Inconclusive("process not quiet (goroutines %d, baseline %d) after %s", runtime.NumGoroutine(), cw.baseline, a)
+		return false
+	case "stuck":
+		re.standstill("after "+a.String()+" was delivered the process does not become quiet", d)
+		return false
+	}
+	ok := cw.settle("after "+a.String(), class, want)
+	cw.optional = nil
+	re.account()
+	return ok && !cw.c.Failed()
+}
+
+func c14ReentrantCase(c *rig.Ctx) {
+	cw := newC14World(c)
+	re := &c14Re{cw: cw}
+	r := c.Rand
+	var fired int64
+	defer func() {
+		c.Shape(fmt.Sprintf("reentrant/%s", c13Hash(cw.shape)))
+		tr := cw.trace
+		if len(tr) > 60 {
+			tr = tr[:60]
+		}
+		c.Sample(map[string]any{"part": "reentrant", "registrations_made_from_inside_callbacks": re.made, "history": tr})
+		if c.Failed() {
+			c.Witness(map[string]any{"part": "reentrant", "history": cw.trace})
+			c.Count("cases_with_violations", 1)
+		}
+		c.NonTrivial(re.made > 0 && fired > 0)
+		// a wedged world may not be closable: Close is guarded, and the world is at least detached from the global bus
+		closeMax := 10 * time.Second
+		if re.wedged {
+			closeMax = 2 * time.Second
+		}
+		if ok, _ := rig.Guard(closeMax, func() { cw.w.Close() }); !ok {
+			_ = spine.VerifUnsubscribeCore(cw.w.Core)
+			spine.SetVerifHook(nil)
+			c.Count("reentrant:world-could-not-be-closed-after-a-standstill", 1)
+			if !re.wedged {
+				c.Inconclusive("World.Close did not return within 10s")
+			}
+		}
+	}()
+	for f := range cw.feats {
+		for k := r.Intn(3); k > 0; k-- {
+			cw.registerResult(f)
+		}
+	}
+	ctrs := []model.MsgCounterType{7, 8, 9, 10}
+	r.Shuffle(len(ctrs), func(i, j int) { ctrs[i], ctrs[j] = ctrs[j], ctrs[i] })
+	N, N2, N3, NR := ctrs[0], ctrs[1], ctrs[2], ctrs[3]
+	f := []int{0, 0, 1, 1, 2, 2, 3}[r.Intn(7)]
+	g := (f + 1 + r.Intn(3)) % 4
+	fns := r.Perm(len(c14Fns))
+	plain := func(feat int, ctr model.MsgCounterType, fn int) *c14Reg {
+		cw.nextReg++
+		rg := &c14Reg{id: cw.nextReg, feat: feat, fn: fn, ctr: ctr}
+		rg.f = c14Fns[fn](cw.log, rg.id)
+		return rg
+	}
+	respPlan := func(name string, feat int, ctr model.MsgCounterType, rg *c14Reg) *c14RePlan {
+		pl := &c14RePlan{kind: "response", feat: feat, ctr: ctr, rg: rg, name: name}
+		re.plans = append(re.plans, pl)
+		return pl
+	}
+	resPlan := func(name string, feat int) *c14RePlan {
+		cw.nextReg++
+		pl := &c14RePlan{kind: "result", feat: feat, resID: cw.nextReg, resF: c14FR(cw.log, cw.nextReg), name: name}
+		re.plans = append(re.plans, pl)
+		return pl
+	}
+	// the chain: the follow-up for N2 registers the callback for N3 when it is invoked
+	chain := respPlan("chain: follow-up of the follow-up (counter N3, own feature)", f, N3, plain(f, N3, fns[0]))
+	cw.nextReg++
+	followRg := &c14Reg{id: cw.nextReg, feat: f, fn: 21, ctr: N2}
+	followRg.f = c14RE1(re, followRg.id, []*c14RePlan{chain})
+	pool := []*c14RePlan{
+		respPlan("follow-up for another counter on the own feature", f, N2, followRg),
+		respPlan("another function for the SAME counter on the own feature", f, N, plain(f, N, fns[3])),
+		respPlan("follow-up on another feature", g, N2, plain(g, N2, fns[1])),
+		resPlan("result callback on the own feature", f),
+		resPlan("result callback on another feature", g),
+	}
+	// drawn subset; the follow-up on the own feature (the usual pattern) is there three times out of four
+	var chosen []*c14RePlan
+	if r.Intn(4) > 0 {
+		chosen = append(chosen, pool[0])
+	}
+	for _, i := range r.Perm(4)[:r.Intn(4)] {
+		chosen = append(chosen, pool[1+i])
+	}
+	if len(chosen) == 0 {
+		chosen = append(chosen, pool[r.Intn(len(pool))])
+	}
+	// 1-3 callbacks for (f,N): 1-2 re-entrant ones that share the chosen plans, the rest plain; drawn order
+	k := 1 + r.Intn(3)
+	nre := 1
+	if k > 1 && len(chosen) > 1 && r.Intn(2) == 0 {
+		nre = 2
+	}
+	split := [][]*c14RePlan{chosen, nil}
+	if nre == 2 {
+		cut := 1 + r.Intn(len(chosen)-1)
+		split = [][]*c14RePlan{chosen[:cut], chosen[cut:]}
+	}
+	ri, pi := 0, 0
+	for _, pos := range r.Perm(k) {
+		if pos < nre {
+			cw.nextReg++
+			rg := &c14Reg{id: cw.nextReg, feat: f, fn: 20 + 2*ri, ctr: N}
+			if ri == 0 {
+				rg.f = c14RE0(re, rg.id, split[0])
+			} else {
+				rg.f = c14RE2(re, rg.id, split[1])
+			}
+			err := cw.feats[f].AddResponseCallback(N, rg.f)
+			var names []string
+			for _, pl := range split[ri] {
+				names = append(names, pl.name)
+				cw.shape = append(cw.shape, "plan:"+pl.name[:12]+fmt.Sprint(pl.feat == f))
+			}
+			cw.logf("register #%d on %s counter %d: re-entrant callback; when invoked it registers {%s} -> err=%v", rg.id, cw.names[f], N, strings.Join(names, "; "), err)
+			if err != nil {
+				cw.viol("register/different-callback-refused", "registration of a re-entrant callback on %s for counter %d was refused: %v", cw.names[f], N, err)
+				return
+			}
+			cw.pending[f][N] = append(cw.pending[f][N], rg)
+			cw.shape = append(cw.shape, fmt.Sprintf("regRE%d", f))
+			ri++
+		} else {
+			cw.shape = append(cw.shape, fmt.Sprintf("reg%d", f))
+			cw.register(f, N, fns[1+pi]) // fns[1], fns[2]: never the function the "same counter" plan uses (fns[3])
+			pi++
+		}
+	}
+	// every second case: a re-entrant RESULT callback on f registers a response callback for NR at its first invocation
+	if r.Intn(2) == 0 {
+		pl := respPlan("response callback registered by a result callback", f, NR, plain(f, NR, fns[2]))
+		cw.nextReg++
+		id := cw.nextReg
+		cw.feats[f].AddResultCallback(c14RER(re, id, []*c14RePlan{pl}))
+		cw.results[f] = append(cw.results[f], id)
+		cw.logf("register result callback #%d on %s: re-entrant; at its first invocation it registers a response callback for counter %d", id, cw.names[f], NR)
+		cw.shape = append(cw.shape, "rreg-RE")
+	}
+	if c.Failed() {
+		return
+	}
+	srcOf := func(feat int) uint { return []uint{1, 2, 3, 0}[feat] }
+	mk := func(feat int, ref model.MsgCounterType) c14Arrival {
+		cw.nArr++
+		a := c14Arrival{peer: r.Intn(2), kind: "result", feat: feat, srcFeat: srcOf(feat), ref: util.Ptr(ref), n: 1000*cw.nArr + r.Intn(1000)}
+		if feat < 3 && r.Intn(2) == 0 {
+			a.kind = "reply"
+		} else {
+			cw.shapeResult(&a)
+		}
+		cw.shapeReply(&a)
+		return a
+	}
+	stepOn := func(feat int, ref model.MsgCounterType, class string) bool {
+		a := mk(feat, ref)
+		want := len(cw.pending[feat][ref])
+		cw.shape = append(cw.shape, fmt.Sprintf("%s-%s-%d", class, a.kind, want))
+		c.Seen("reentrant_step_classes", fmt.Sprintf("%s/%s/to=%s/registrations-due=%v", class, a.kind, cw.names[feat], want > 0))
+		if !re.step(a, "reentrant-"+class) {
+			return false
+		}
+		fired += int64(want)
+		return true
+	}
+	if !stepOn(f, N, "first") {
+		return
+	}
+	type st struct {
+		feat  int
+		ctr   model.MsgCounterType
+		class string
+	}
+	later := []st{{f, N2, "follow-up"}, {g, N2, "follow-up-other-feature"}, {f, N, "same-counter-again"}, {f, N3, "chain-end"}}
+	if r.Intn(3) > 0 {
+		r.Shuffle(len(later), func(i, j int) { later[i], later[j] = later[j], later[i] })
+	}
+	for _, s := range later {
+		if !stepOn(s.feat, s.ctr, s.class) {
+			return
+		}
+	}
+	// everything still pending is settled by matching results; the sweep may itself create registrations
+	for round := 0; round < 4; round++ {
+		n := 0
+		for ft := range cw.feats {
+			var cts []model.MsgCounterType
+			for ct := range cw.pending[ft] {
+				cts = append(cts, ct)
+			}
+			sort.Slice(cts, func(i, j int) bool { return cts[i] < cts[j] })
+			for _, ct := range cts {
+				n++
+				cw.nArr++
+				a := c14Arrival{peer: r.Intn(2), kind: "result", feat: ft, srcFeat: srcOf(ft), ref: util.Ptr(ct), n: 1000*cw.nArr + r.Intn(1000)}
+				cw.shapeResult(&a)
+				want := len(cw.pending[ft][ct])
+				if !re.step(a, "reentrant-final") {
+					return
+				}
+				fired += int64(want)
+			}
+		}
+		if n == 0 {
+			break
+		}
+	}
+	for _, pl := range re.plans {
+		if pl.seen {
+			c.Count("reentrant:plans-carried-out", 1)
 		}
 	}
 }
